@@ -332,13 +332,19 @@ impl CostModel {
                         *index,
                         String::from(Self::NETWORK_RATES),
                     ))?;
+            // a "combined" rate is a tagged newtype variant holding a sequence, which serde can
+            // read but not write; such rates are described as text instead of failing
+            let veh_rate_json = serde_json::to_value(veh_rate)
+                .unwrap_or_else(|_| serde_json::Value::String(format!("{:?}", veh_rate)));
+            let net_rate_json = serde_json::to_value(net_rate)
+                .unwrap_or_else(|_| serde_json::Value::String(format!("{:?}", net_rate)));
             result.insert(
                 name.clone(),
                 json![{
                     Self::FEATURE: json![name],
                     Self::WEIGHT: json![weight],
-                    Self::VEHICLE_RATE: json![veh_rate],
-                    Self::NETWORK_RATE: json![net_rate],
+                    Self::VEHICLE_RATE: veh_rate_json,
+                    Self::NETWORK_RATE: net_rate_json,
                 }],
             );
         }
